@@ -6,3 +6,4 @@ CONSTANTS
   MaxOps = 2
   Big = FALSE
   CheckImpl = FALSE
+  NonAscii = FALSE
